@@ -713,8 +713,48 @@ def rule_regex(ctx):
     return res.finish(1)
 
 
+def make_regex_text_rule(rid, cfg):
+    """The expression handed to `Regex::new` is the user's expression itself.  What is validated (check / check_ref
+    report an invalid expression) and what is serialised (`as_str()` of the compiled regex) is then the text the user
+    configured; wrapped in a `format!` (a non-capturing group, a flag prefix) the compiled expression is another one -
+    expressions that are invalid on their own can become valid, and the two cfg twins of the constructor can drift
+    apart."""
+    def rule(ctx):
+        res = RuleResult(rid, "the split expression is compiled as given: the argument of Regex::new / RegexBuilder::new in linfa-preprocessing is the configured text, not a rewritten one (%s configuration)" % cfg)
+        F = ctx.facts(cfg)
+        if F is None:
+            return res.finish(0)
+        n = 0
+        for fn in F.all_fns():
+            if fn["d"]["krate"] != "linfa_preprocessing" or fn.get("exp"):
+                continue
+            c = fn["crate"]
+            for y in walk(fn["body"]):
+                if y.get("k") != "Call" or strip(y["f"]).get("k") != "Path" or not y["args"]:
+                    continue
+                d = c.dfn(strip(y["f"]).get("def")) or {}
+                if d.get("krate") != "regex" or d.get("name") != "new" or not ((d.get("path") or "").endswith("Regex::new") or "RegexBuilder" in (d.get("path") or "")):
+                    continue
+                n += 1
+                key = fn_key(fn)
+                res.instance("%s : %s" % (key, (d.get("path") or "").split("::", 1)[-1]))
+                a = peel_refs(y["args"][0])
+                while a.get("k") == "MethodCall" and a["name"] in ("as_str", "as_ref", "to_string", "clone", "deref", "borrow", "to_owned", "as_deref"):
+                    a = peel_refs(a["recv"])
+                if a.get("k") in ("Path", "Field") or (a.get("k") == "Lit"):
+                    res.ok()
+                else:
+                    what = "a `format!`-built string" if any((c.dfn(strip(z["f"]).get("def")) or {}).get("name") in ("format", "must_use", "new_v1", "new_const", "new_v1_formatted") for z in walk(a) if z.get("k") == "Call" and strip(z["f"]).get("k") == "Path") else "a rewritten expression"
+                    res.violate("%s : expression-rewritten-before-compilation" % key, "the regex is compiled from %s, not from the configured text itself: the expression that is validated, used and serialised is not the one the user set" % what, fn_loc(fn, y["ln"]))
+        if n < 1:
+            res.missing_anchor("Regex::new in linfa-preprocessing (%s configuration)" % cfg)
+        return res.finish(1)
+    rule.__name__ = "rule_regex_text_" + cfg
+    return rule
+
+
 def rules(tier):
     from . import carry, c04
-    return [rule_build, rule_both, rule_struct, rule_types, rule_guard, rule_witness, rule_regex,
+    return [rule_build, rule_both, rule_struct, rule_types, rule_guard, rule_witness, rule_regex, make_regex_text_rule("R-C19-regextext", "serde"),
             carry.make_clone_rule("R-C19-clone", c04.ALL_CRATES, 40),
             carry.make_accessor_rule("R-C19-accessor", c04.ALL_CRATES, 80)]
